@@ -66,6 +66,13 @@ PROPS = {
              "all header/preamble configurations; every token bound to a session and every stored token is re-verified by a std-lib-only verifier against the provider's keys and ledger; "
              "non-trivial = at least one forged answer was delivered and at least one honest token was bound; distinct = canonical event trace",
              {"runs": 8000, "budget_s": 30}, {"runs": 800000, "budget_s": 900}, must={"all": ["forged-answers", "tokens-bound", "justified-ok"]}),
+    "C15": P("plans by fault kind: hostile client (27 malformed CheckRequest shapes: absent message parts, empty/huge fields, hostile cookies, hosts, paths, queries), malformed token-endpoint "
+             "bodies at login and refresh (34 bodies from a JSON grammar: null, arrays, scalars, wrong member types, huge/negative/fractional numbers, duplicates, truncation, non-UTF-8, deep nesting, 4 MB), "
+             "honestly signed tokens with claims of unexpected type (15 productions), malformed JWKS and discovery documents, a store that answers nil/empty/partial/unparsable values or whose Redis "
+             "fields are corrupted in place, and all of these mixed into C01-style histories; oracle = recover() around Check + verdict well-formedness; "
+             "non-trivial = a malformed input was delivered; distinct = canonical event trace",
+             {"runs": 6000, "budget_s": 35}, {"runs": 600000, "budget_s": 900},
+             must={"all": ["raw-requests", "token-raw-body", "store-lie", "jwks-raw-body", "discovery-raw-body"]}),
 }
 
 
